@@ -22,14 +22,15 @@ const TICK: f32 = 0.125;
 
 /// Timeline pool shared by id between the trace (which carries delay/total in ticks) and the judge.
 /// (cycle, delay, repeat (-1 none, n, -2 infinite), reverse, shape)
-const POOL: [(i64, i64, i64, bool, u8); 10] = [
+const POOL: [(i64, i64, i64, bool, u8); 12] = [
     (8, 0, -1, false, 0), (8, 4, -1, false, 1), (4, 2, 1, false, 0), (4, 0, -2, false, 2), (6, 3, 0, true, 1),
     (2, 0, 2, true, 2), (16, 8, -1, false, 3), (1, 0, -1, false, 0), (3, 1, 1, true, 3), (8, 0, -1, false, 4),
+    (4, 4, -1, false, 5), (6, 2, 0, false, 4),
 ];
 fn pool_total(i: usize) -> i64 { let (c, d, r, _, _) = POOL[i]; if r == -2 { 1_000_000_000 } else { d + c * (r.max(0) + 1) } }
 fn rep(r: i64) -> Repeat { match r { -1 => Repeat::None, -2 => Repeat::Infinite, n => Repeat::Times(n as u32) } }
 
-macro_rules! pool_tl { ($T:ident, $id:expr) => {{
+macro_rules! pool_single { ($T:ident, $id:expr) => {{
     let (c, d, r, rev, shape) = POOL[($id - 1) as usize];
     let b = $T::timeline().duration_seconds(c as f32 * TICK).delay_seconds(d as f32 * TICK).repeat(rep(r)).reverse(rev);
     match shape {
@@ -37,9 +38,24 @@ macro_rules! pool_tl { ($T:ident, $id:expr) => {{
         1 => b.keyframe($T::keyframe(0.0).x(8.0).y(1.0)).keyframe($T::keyframe(1.0).x(40.0).y(5.0)),
         2 => b.default_easing(Easing::OutQuad).keyframe($T::keyframe(0.5).x(16.0)).keyframe($T::keyframe(1.0).x(-24.0)),
         3 => b.keyframe($T::keyframe(0.25).y(12.0)).keyframe($T::keyframe(0.75).x(30.0).easing(Easing::InOutCubic)).keyframe($T::keyframe(1.0).y(3.0)),
+        5 => b.keyframe($T::keyframe(0.0).y(2.0)).keyframe($T::keyframe(1.0).y(20.0)),
         _ => b.keyframe($T::keyframe(0.0).x(100.0)).keyframe($T::keyframe(1.0).x(0.0)),
     }.build()
 }}; }
+/// Runs `$body` with `$tl` bound to pool timeline `$id`: a plain timeline for ids up to POOL.len(), a
+/// MergedTimeline of two components with DIFFERENT delays for the ids after that.
+macro_rules! pool_with { ($T:ident, $id:expr, $tl:ident => $body:expr) => {{
+    let id = $id as i64;
+    if id as usize <= POOL.len() { let $tl = pool_single!($T, id); $body }
+    else { let (a, b) = MERGED[(id as usize) - POOL.len() - 1]; let $tl = MergedTimeline::of([pool_single!($T, a as i64), pool_single!($T, b as i64)]); $body }
+}}; }
+/// merged pool entries: pairs of single ids
+const MERGED: [(usize, usize); 2] = [(1, 11), (12, 9)];
+fn pool_del_tot(id: usize) -> (i64, i64) {
+    if id <= POOL.len() { (POOL[id - 1].1, pool_total(id - 1)) }
+    else { let (a, b) = MERGED[id - POOL.len() - 1]; (POOL[a - 1].1.min(POOL[b - 1].1), pool_total(a - 1).max(pool_total(b - 1))) }
+}
+const NPOOL: usize = 14;
 
 struct Rng(u64);
 impl Rng {
@@ -50,12 +66,19 @@ impl Rng {
 fn st_no(s: AnimationState) -> i64 { match s { AnimationState::None => 0, AnimationState::Waiting => 1, AnimationState::Playing => 2, AnimationState::Ended => 3 } }
 fn ticks(d: Duration) -> i64 { let n = d.as_nanos() as i64; assert!(n % 125_000_000 == 0, "position off the tick grid: {d:?}"); n / 125_000_000 }
 fn bits(x: f32, y: f32) -> [i64; 2] { [x.to_bits() as i64, y.to_bits() as i64] }
+const A0: (f32, f32) = (-3.0, -5.0);
+const B0: (f32, f32) = (-7.0, -9.0);
+const A20: (f32, f32) = (-11.0, -13.0);
 
-struct WorldRun { app: App, e: Entity, now: Instant, reader: ManualEventReader<AnimationStateChanged>, hassel: bool, hasb: bool }
+/// One App with the main entity `e` (Animator<A>, optionally selector + chain, optionally B) and
+/// optionally a second entity `e2` carrying only an Animator<A>, spawned before or after `e`.
+struct WorldRun { app: App, e: Entity, e2: Option<Entity>, now: Instant, reader: ManualEventReader<AnimationStateChanged>, hassel: bool, hasb: bool }
 
 fn new_world(cfg: &Value) -> WorldRun {
     let hassel = cfg["hassel"].as_bool().unwrap();
     let hasb = cfg["hasb"].as_bool().unwrap();
+    let hase2 = cfg["hase2"].as_bool().unwrap_or(false);
+    let e2first = cfg["e2first"].as_bool().unwrap_or(false);
     let mut app = App::new();
     app.insert_resource(Time::default());
     app.add_plugins(AnimationPlugin::<A>::new());
@@ -63,48 +86,59 @@ fn new_world(cfg: &Value) -> WorldRun {
     if hassel { app.register_animation_key::<A, K>(); }
     let now = Instant::now();
     app.world.resource_mut::<Time>().update_with_instant(now);
-    let a0 = A { x: -3.0, y: -5.0 };
-    let mut ent = app.world.spawn(a0);
-    let en_a = cfg["enA"].as_bool().unwrap();
-    if hassel {
-        let mut sb = AnimationSelectorBuilder::<K, A>::new().initial_key(key(cfg["key0"].as_i64().unwrap()));
-        for (i, t) in cfg["keytl"].as_array().unwrap().iter().enumerate() {
-            let id = t.as_i64().unwrap();
-            if id != 0 { sb = sb.add(key(i as i64 + 1), pool_tl!(A, id)); }
+    let spawn_e2 = |app: &mut App| -> Entity {
+        let id = cfg["tlE2"].as_i64().unwrap_or(0);
+        let an = if id == 0 { Animator::<A>::new() } else { pool_with!(A, id, tl => Animator::<A>::with_timeline(tl)) };
+        app.world.spawn((A { x: A20.0, y: A20.1 }, an)).id()
+    };
+    let mut e2 = None;
+    if hase2 && e2first { e2 = Some(spawn_e2(&mut app)); }
+    let e = {
+        let mut ent = app.world.spawn(A { x: A0.0, y: A0.1 });
+        let en_a = cfg["enA"].as_bool().unwrap();
+        if hassel {
+            let mut sb = AnimationSelectorBuilder::<K, A>::new().initial_key(key(cfg["key0"].as_i64().unwrap()));
+            for (i, t) in cfg["keytl"].as_array().unwrap().iter().enumerate() {
+                let id = t.as_i64().unwrap();
+                if id != 0 { sb = pool_with!(A, id, tl => sb.add(key(i as i64 + 1), tl)); }
+            }
+            let mut cb = AnimationChainBuilder::<K>::new();
+            for (i, n) in cfg["chain"].as_array().unwrap().iter().enumerate() {
+                let n = n.as_i64().unwrap();
+                if n != 0 { cb = cb.add(key(i as i64 + 1), key(n)); }
+            }
+            let an = if en_a { Animator::<A>::new() } else { Animator::<A>::new().as_disabled() };
+            ent.insert((an, sb.build(), cb.build()));
+        } else {
+            let id = cfg["tlA"].as_i64().unwrap();
+            let an = if id == 0 { Animator::<A>::new() } else { pool_with!(A, id, tl => Animator::<A>::with_timeline(tl)) };
+            ent.insert(if en_a { an } else { an.as_disabled() });
         }
-        let mut cb = AnimationChainBuilder::<K>::new();
-        for (i, n) in cfg["chain"].as_array().unwrap().iter().enumerate() {
-            let n = n.as_i64().unwrap();
-            if n != 0 { cb = cb.add(key(i as i64 + 1), key(n)); }
+        if hasb {
+            let id = cfg["tlB"].as_i64().unwrap();
+            let an = if id == 0 { Animator::<B>::new() } else { pool_with!(B, id, tl => Animator::<B>::with_timeline(tl)) };
+            ent.insert((B { x: B0.0, y: B0.1 }, an));
         }
-        let an = if en_a { Animator::<A>::new() } else { Animator::<A>::new().as_disabled() };
-        ent.insert((an, sb.build(), cb.build()));
-    } else {
-        let id = cfg["tlA"].as_i64().unwrap();
-        let an = if id == 0 { Animator::<A>::new() } else { Animator::<A>::with_timeline(pool_tl!(A, id)) };
-        ent.insert(if en_a { an } else { an.as_disabled() });
-    }
-    if hasb {
-        let id = cfg["tlB"].as_i64().unwrap();
-        ent.insert((B { x: -7.0, y: -9.0 }, if id == 0 { Animator::<B>::new() } else { Animator::<B>::with_timeline(pool_tl!(B, id)) }));
-    }
-    let e = ent.id();
-    WorldRun { app, e, now, reader: ManualEventReader::default(), hassel, hasb }
+        ent.id()
+    };
+    if hase2 && !e2first { e2 = Some(spawn_e2(&mut app)); }
+    WorldRun { app, e, e2, now, reader: ManualEventReader::default(), hassel, hasb }
 }
 
 impl WorldRun {
     fn apply_op(&mut self, op: &Value) {
-        let e = self.e;
+        let t = op["T"].as_str().unwrap_or("A");
+        let e = if t == "A2" { self.e2.expect("second entity") } else { self.e };
         match op["op"].as_str().unwrap() {
             "key" => { self.app.world.get_mut::<AnimationSelector<K, A>>(e).unwrap().timeline_key = key(op["k"].as_i64().unwrap()); }
             "enable" => { let b = op["b"].as_bool().unwrap();
-                if op["T"] == "A" { self.app.world.get_mut::<Animator<A>>(e).unwrap().enabled = b; } else { self.app.world.get_mut::<Animator<B>>(e).unwrap().enabled = b; } }
-            "reset" => { if op["T"] == "A" { self.app.world.get_mut::<Animator<A>>(e).unwrap().reset(); } else { self.app.world.get_mut::<Animator<B>>(e).unwrap().reset(); } }
+                if t == "B" { self.app.world.get_mut::<Animator<B>>(e).unwrap().enabled = b; } else { self.app.world.get_mut::<Animator<A>>(e).unwrap().enabled = b; } }
+            "reset" => { if t == "B" { self.app.world.get_mut::<Animator<B>>(e).unwrap().reset(); } else { self.app.world.get_mut::<Animator<A>>(e).unwrap().reset(); } }
             "settl" => { let id = op["id"].as_i64().unwrap();
-                if op["T"] == "A" { self.app.world.get_mut::<Animator<A>>(e).unwrap().set_timeline(pool_tl!(A, id)); }
-                else { self.app.world.get_mut::<Animator<B>>(e).unwrap().set_timeline(pool_tl!(B, id)); } }
+                if t == "B" { pool_with!(B, id, tl => self.app.world.get_mut::<Animator<B>>(e).unwrap().set_timeline(tl)); }
+                else { pool_with!(A, id, tl => self.app.world.get_mut::<Animator<A>>(e).unwrap().set_timeline(tl)); } }
             "setpos" => { let p = Duration::from_secs_f32(op["p"].as_i64().unwrap() as f32 * TICK);
-                if op["T"] == "A" { self.app.world.get_mut::<Animator<A>>(e).unwrap().timeline_position = p; } else { self.app.world.get_mut::<Animator<B>>(e).unwrap().timeline_position = p; } }
+                if t == "B" { self.app.world.get_mut::<Animator<B>>(e).unwrap().timeline_position = p; } else { self.app.world.get_mut::<Animator<A>>(e).unwrap().timeline_position = p; } }
             o => panic!("op {o}"),
         }
     }
@@ -123,24 +157,39 @@ impl WorldRun {
             rec["B"] = json!([st_no(b.state()), ticks(b.timeline_position), b.enabled as i64]);
             rec["compB"] = json!(bits(cb.x, cb.y));
         } else { rec["B"] = json!([0, 0, 1]); rec["compB"] = json!([0, 0]); }
+        if let Some(e2) = self.e2 {
+            let a2 = w.get::<Animator<A>>(e2).unwrap();
+            let c2 = w.get::<A>(e2).unwrap();
+            rec["A2"] = json!([st_no(a2.state()), ticks(a2.timeline_position), a2.enabled as i64]);
+            rec["compA2"] = json!(bits(c2.x, c2.y));
+        } else { rec["A2"] = json!([0, 0, 1]); rec["compA2"] = json!([0, 0]); }
         rec["key"] = json!(if self.hassel { key_no(&w.get::<AnimationSelector<K, A>>(self.e).unwrap().timeline_key) } else { 0 });
         let events = w.resource::<Events<AnimationStateChanged>>();
-        let out: Vec<i64> = self.reader.iter(events).filter(|ev| ev.entity == self.e).map(|ev| st_no(ev.state)).collect();
+        let (mut out, mut out2) = (vec![], vec![]);
+        for ev in self.reader.iter(events) { if ev.entity == self.e { out.push(st_no(ev.state)); } else if Some(ev.entity) == self.e2 { out2.push(st_no(ev.state)); } }
         rec["out"] = json!(out);
+        rec["out2"] = json!(out2);
         rec
     }
 }
 
+fn panic_frame(dt: i64) -> Value {
+    json!({"ev":"frame","dt":dt,"A":[-1,-1,-1],"B":[-1,-1,-1],"A2":[-1,-1,-1],"compA":[0,0],"compB":[0,0],"compA2":[0,0],"key":-1,"out":[],"out2":[],"panic":1})
+}
+
 fn world_cfg(rng: &mut Rng, wi: u64) -> Value {
-    let np = POOL.len() as u64;
-    let tl: Vec<Value> = (0..POOL.len()).map(|i| json!([POOL[i].1, pool_total(i)])).collect();
+    let np = NPOOL as u64;
+    let tl: Vec<Value> = (1..=NPOOL).map(|i| { let (d, t) = pool_del_tot(i); json!([d, t]) }).collect();
     let hassel = wi % 2 == 1;
     let hasb = hassel && rng.below(3) != 0;
+    let hase2 = rng.below(3) == 0;
     let keytl: Vec<i64> = (0..3).map(|_| if rng.below(5) == 0 { 0 } else { 1 + rng.below(np) as i64 }).collect();
     let chain: Vec<i64> = (0..3).map(|_| if rng.below(2) == 0 { 0 } else { 1 + rng.below(3) as i64 }).collect();
-    json!({"ev": "world", "tl": tl, "keytl": keytl, "chain": chain, "hassel": hassel, "hasb": hasb,
-           "tlA": if rng.below(8) == 0 { 0 } else { 1 + rng.below(np) as i64 }, "tlB": 1 + rng.below(np) as i64,
-           "key0": 1 + rng.below(3) as i64, "enA": rng.below(6) != 0})
+    let tl_a = if rng.below(8) == 0 { 0 } else { 1 + rng.below(np) as i64 };
+    let tl_b = 1 + rng.below(np) as i64;
+    let tl_e2 = if rng.below(3) == 0 { 0 } else { 1 + rng.below(np) as i64 };
+    json!({"ev": "world", "tl": tl, "keytl": keytl, "chain": chain, "hassel": hassel, "hasb": hasb, "hase2": hase2, "e2first": rng.below(2) == 0,
+           "tlA": tl_a, "tlB": tl_b, "tlE2": tl_e2, "key0": 1 + rng.below(3) as i64, "enA": rng.below(6) != 0})
 }
 
 fn drive(seed: u64, nworlds: u64, nframes: u64, out: &str) -> Value {
@@ -152,20 +201,22 @@ fn drive(seed: u64, nworlds: u64, nframes: u64, out: &str) -> Value {
         let cfg = world_cfg(&mut rng, wi);
         writeln!(f, "{}", cfg).unwrap();
         let mut w = new_world(&cfg);
-        let (hassel, hasb) = (w.hassel, w.hasb);
+        let (hassel, hasb, hase2) = (w.hassel, w.hasb, w.e2.is_some());
         for _ in 0..nframes {
             // user operations between frames
             if rng.below(4) == 0 {
-                let op = match rng.below(if hassel { 7 } else { 6 }) {
+                let np = NPOOL as u64;
+                let pos = [0i64, 2, 7, 30][rng.below(4) as usize];
+                let op = match rng.below(9) {
                     0 => json!({"ev":"op","op":"enable","T":"A","b": rng.below(2) == 0}),
                     1 => json!({"ev":"op","op":"reset","T": if hasb && rng.below(2) == 0 { "B" } else { "A" }}),
-                    2 if !hassel => json!({"ev":"op","op":"settl","T":"A","id": 1 + rng.below(POOL.len() as u64)}),
+                    2 if !hassel => json!({"ev":"op","op":"settl","T":"A","id": 1 + rng.below(np)}),
                     2 | 3 if hassel => json!({"ev":"op","op":"key","k": 1 + rng.below(3)}),
-                    3 if hasb => json!({"ev":"op","op":"settl","T":"B","id": 1 + rng.below(POOL.len() as u64)}),
-                    4 if hasb => json!({"ev":"op","op":"enable","T":"B","b": rng.below(2) == 0}),
-                    5 if !hassel => { let p = [0i64, 2, 7, 30][rng.below(4) as usize]; json!({"ev":"op","op":"setpos","T":"A","p": p}) }
-                    5 => json!({"ev":"op","op":"key","k": 1 + rng.below(3)}),
-                    6 if hassel => { let p = [0i64, 2, 7, 30][rng.below(4) as usize]; json!({"ev":"op","op":"setpos","T":"A","p": p}) }
+                    3 | 4 if hasb => json!({"ev":"op","op": if rng.below(2) == 0 { "settl" } else { "enable" },"T":"B","id": 1 + rng.below(np),"b": rng.below(2) == 0}),
+                    5 => json!({"ev":"op","op":"setpos","T":"A","p": pos}),
+                    6 if hase2 => json!({"ev":"op","op":"settl","T":"A2","id": 1 + rng.below(np)}),
+                    7 if hase2 => json!({"ev":"op","op": if rng.below(2) == 0 { "reset" } else { "enable" },"T":"A2","b": rng.below(2) == 0}),
+                    8 if hassel => json!({"ev":"op","op":"key","k": 1 + rng.below(3)}),
                     _ => json!({"ev":"op","op":"enable","T":"A","b": true}),
                 };
                 w.apply_op(&op);
@@ -176,7 +227,7 @@ fn drive(seed: u64, nworlds: u64, nframes: u64, out: &str) -> Value {
             // a panic inside the App is an observation (rejected by the trace spec), not a harness failure
             let rec = match std::panic::catch_unwind(std::panic::AssertUnwindSafe(|| w.frame(dt))) {
                 Ok(r) => r,
-                Err(_) => { writeln!(f, "{}", json!({"ev":"frame","dt":dt,"A":[-1,-1,-1],"B":[-1,-1,-1],"compA":[0,0],"compB":[0,0],"key":-1,"out":[],"panic":1})).unwrap(); frames += 1; break; }
+                Err(_) => { writeln!(f, "{}", panic_frame(dt)).unwrap(); frames += 1; break; }
             };
             if sample.len() < 4 && frames % 7 == 3 { sample.push(json!({"world": cfg, "frame": rec})); }
             writeln!(f, "{}", rec).unwrap();
@@ -198,9 +249,10 @@ fn drive_file(inp: &str, out: &str) -> Value {
         let v: Value = serde_json::from_str(&inner).unwrap();
         let c = &v["c"];
         let tl: Vec<Value> = c["c"]["TL"].as_array().unwrap().iter().map(|t| json!([t["del"], t["tot"]])).collect();
-        for (i, t) in tl.iter().enumerate() { assert!(t[0] == POOL[i].1 && t[1] == pool_total(i), "spec timeline table differs from the harness pool"); }
+        assert_eq!(tl.len(), NPOOL, "spec timeline table differs from the harness pool");
+        for (i, t) in tl.iter().enumerate() { let (d, tt) = pool_del_tot(i + 1); assert!(t[0] == d && t[1] == tt, "spec timeline table differs from the harness pool at {}", i + 1); }
         let cfg = json!({"ev": "world", "tl": tl, "keytl": c["c"]["KeyTl"], "chain": c["c"]["ChainNext"], "hassel": c["c"]["HasSel"], "hasb": c["c"]["HasB"],
-                         "tlA": c["tlA"], "tlB": c["tlB"], "key0": c["key0"], "enA": true});
+                         "hase2": c["c"]["HasE2"], "e2first": c["e2first"], "tlA": c["tlA"], "tlB": c["tlB"], "tlE2": c["tlE2"], "key0": c["key0"], "enA": true});
         writeln!(f, "{}", cfg).unwrap();
         worlds += 1;
         let mut w = new_world(&cfg);
@@ -210,7 +262,7 @@ fn drive_file(inp: &str, out: &str) -> Value {
                 let dt = op["dt"].as_i64().unwrap();
                 match std::panic::catch_unwind(std::panic::AssertUnwindSafe(|| w.frame(dt))) {
                     Ok(rec) => { writeln!(f, "{}", rec).unwrap(); frames += 1; }
-                    Err(_) => { writeln!(f, "{}", json!({"ev":"frame","dt":dt,"A":[-1,-1,-1],"B":[-1,-1,-1],"compA":[0,0],"compB":[0,0],"key":-1,"out":[],"panic":1})).unwrap(); frames += 1; break; }
+                    Err(_) => { writeln!(f, "{}", panic_frame(dt)).unwrap(); frames += 1; break; }
                 }
             }
         }
@@ -219,11 +271,30 @@ fn drive_file(inp: &str, out: &str) -> Value {
     json!({"worlds": worlds, "frames": frames, "ops": ops, "samples": []})
 }
 
+fn f2(b: [i64; 2]) -> (f32, f32) { (f32::from_bits(b[0] as u32), f32::from_bits(b[1] as u32)) }
+fn arr2(v: &Value) -> [i64; 2] { [v[0].as_i64().unwrap(), v[1].as_i64().unwrap()] }
+
+/// expected component bits after one frame, given the predicted evaluation identity
+fn expect_a(c: &Value, prev_c: &Value, prev: [i64; 2], got: [i64; 2], hist: &[[i64; 2]], evals: &mut u64) -> [i64; 2] {
+    if c[0] == "any" { return got; }                 // the property leaves this frame's component open
+    if c == prev_c { return prev; }                  // no evaluation since: unchanged
+    let a = c.as_array().unwrap();
+    let (px, py) = f2(prev);
+    let mut v = A { x: px, y: py };
+    let ovf = a[2].as_i64().unwrap();
+    *evals += 1;
+    pool_with!(A, a[1].as_i64().unwrap(), tl => {
+        let mut tl = tl;
+        if ovf >= 0 { let (sx, sy) = f2(hist[(ovf - 1) as usize]); tl.start_with(&A { x: sx, y: sy }); }
+        tl.update(&mut v, a[3].as_i64().unwrap() as f32 * TICK);
+    });
+    bits(v.x, v.y)
+}
+
 /// Re-evaluates the real timelines at the evaluation identities predicted by the surviving
 /// behaviours of Trace_Bevy (PRED lines) and compares with the logged component bits.
 fn judge(trace: &str, preds: &str) -> Value {
     let recs: Vec<Value> = std::io::BufReader::new(std::fs::File::open(trace).unwrap()).lines().map(|l| serde_json::from_str(&l.unwrap()).unwrap()).collect();
-    // split into worlds
     let mut worlds: Vec<(Value, Vec<Value>)> = vec![];
     for r in recs { if r["ev"] == "world" { worlds.push((r, vec![])); } else if r["ev"] == "frame" { worlds.last_mut().unwrap().1.push(r); } }
     let mut by_world: std::collections::BTreeMap<u64, Vec<Value>> = Default::default();
@@ -240,44 +311,35 @@ fn judge(trace: &str, preds: &str) -> Value {
     for (wi, (cfg, frames)) in worlds.iter().enumerate() {
         let cands = by_world.get(&(wi as u64 + 1)).cloned().unwrap_or_default();
         if cands.is_empty() { mism.push(json!({"world": wi + 1, "what": "no surviving behaviour predicted this world"})); continue; }
+        let (hasb, hase2) = (cfg["hasb"].as_bool().unwrap(), cfg["hase2"].as_bool().unwrap_or(false));
         let mut first_fail = None;
         let mut ok_any = false;
         for cand in &cands {
             let pred = cand["pred"].as_array().unwrap();
             let mut fail = None;
-            let (mut pa, mut pb) = ([(-3.0f32).to_bits() as i64, (-5.0f32).to_bits() as i64], [(-7.0f32).to_bits() as i64, (-9.0f32).to_bits() as i64]);
+            let (mut pa, mut pb, mut p2) = (bits(A0.0, A0.1), bits(B0.0, B0.1), bits(A20.0, A20.1));
             let mut hist_a = vec![pa]; // hist_a[f] = component A before frame f+1 (= after frame f)
-            let (mut prev_ca, mut prev_cb) = (json!(["init"]), json!(["init"]));
+            let (mut prev_ca, mut prev_cb, mut prev_c2) = (json!(["init"]), json!(["init"]), json!(["init"]));
             for (fi, fr) in frames.iter().enumerate() {
-                let (ca, cb) = (&pred[fi]["A"], &pred[fi]["B"]);
-                let got_a = [fr["compA"][0].as_i64().unwrap(), fr["compA"][1].as_i64().unwrap()];
-                let got_b = [fr["compB"][0].as_i64().unwrap(), fr["compB"][1].as_i64().unwrap()];
-                let mut exp_a = pa;
-                if ca[0] == "any" { exp_a = got_a; }            // the property leaves this frame's component open
-                else if *ca != prev_ca {
-                    let c = ca.as_array().unwrap();
-                    let mut tl = pool_tl!(A, c[1].as_i64().unwrap());
-                    let ovf = c[2].as_i64().unwrap();
-                    if ovf >= 0 { let s = hist_a[(ovf - 1) as usize]; tl.start_with(&A { x: f32::from_bits(s[0] as u32), y: f32::from_bits(s[1] as u32) }); }
-                    let mut v = A { x: f32::from_bits(pa[0] as u32), y: f32::from_bits(pa[1] as u32) };
-                    tl.update(&mut v, c[3].as_i64().unwrap() as f32 * TICK);
-                    exp_a = bits(v.x, v.y); evals += 1;
-                }
+                let (ca, cb, c2) = (&pred[fi]["A"], &pred[fi]["B"], &pred[fi]["A2"]);
+                let (got_a, got_b, got_2) = (arr2(&fr["compA"]), arr2(&fr["compB"]), arr2(&fr["compA2"]));
+                let exp_a = expect_a(ca, &prev_ca, pa, got_a, &hist_a, &mut evals);
                 let mut exp_b = pb;
                 if cb[0] == "any" { exp_b = got_b; }
-                else if cfg["hasb"].as_bool().unwrap() && *cb != prev_cb {
+                else if hasb && *cb != prev_cb {
                     let c = cb.as_array().unwrap();
-                    let tl = pool_tl!(B, c[1].as_i64().unwrap());
-                    let mut v = B { x: f32::from_bits(pb[0] as u32), y: f32::from_bits(pb[1] as u32) };
-                    tl.update(&mut v, c[3].as_i64().unwrap() as f32 * TICK);
+                    let (px, py) = f2(pb);
+                    let mut v = B { x: px, y: py };
+                    pool_with!(B, c[1].as_i64().unwrap(), tl => tl.update(&mut v, c[3].as_i64().unwrap() as f32 * TICK));
                     exp_b = bits(v.x, v.y); evals += 1;
                 }
-                if exp_a != got_a || (cfg["hasb"].as_bool().unwrap() && exp_b != got_b) {
-                    fail = Some(json!({"world": wi + 1, "frame": fi + 1, "cfg": cfg, "ord": cand["ord"], "predA": ca, "predB": cb,
-                        "expA": exp_a, "gotA": got_a, "expB": exp_b, "gotB": got_b, "frame_rec": fr}));
+                let exp_2 = if hase2 { expect_a(c2, &prev_c2, p2, got_2, &[], &mut evals) } else { got_2 };
+                if exp_a != got_a || (hasb && exp_b != got_b) || exp_2 != got_2 {
+                    fail = Some(json!({"world": wi + 1, "frame": fi + 1, "cfg": cfg, "ord": cand["ord"], "predA": ca, "predB": cb, "predA2": c2,
+                        "expA": exp_a, "gotA": got_a, "expB": exp_b, "gotB": got_b, "expA2": exp_2, "gotA2": got_2, "frame_rec": fr}));
                     break;
                 }
-                pa = got_a; pb = got_b; hist_a.push(pa); prev_ca = ca.clone(); prev_cb = cb.clone();
+                pa = got_a; pb = got_b; p2 = got_2; hist_a.push(pa); prev_ca = ca.clone(); prev_cb = cb.clone(); prev_c2 = c2.clone();
                 checked += 1;
             }
             if fail.is_none() { ok_any = true; break; } else if first_fail.is_none() { first_fail = fail; }
@@ -293,6 +355,6 @@ fn main() {
         "drive" => println!("{}", drive(args[2].parse().unwrap(), args[3].parse().unwrap(), args[4].parse().unwrap(), &args[5])),
         "drive-file" => println!("{}", drive_file(&args[2], &args[3])),
         "judge" => println!("{}", judge(&args[2], &args[3])),
-        _ => { eprintln!("usage: harness_bevy drive <seed> <worlds> <frames> <out> | judge <trace> <tlc-output>"); std::process::exit(2); }
+        _ => { eprintln!("usage: harness_bevy drive <seed> <worlds> <frames> <out> | drive-file <replay> <out> | judge <trace> <tlc-output>"); std::process::exit(2); }
     }
 }
